@@ -56,7 +56,7 @@ def generate(src):
     def h_find_task(ex, st, e, recv, args, kw, k, K):
         t = fresh('task'); st.pc.append(Or(t == Val.none, Val.is_ref(t)))
         ob(st, "callback/find_task: looked up by the decoded message's task name  [C01]", BoolVal(ast.unparse(e.args[0]) == MSG + '.task_name') if e.args else BoolVal(False))
-        setG(st, task=t); return k(st, t)
+        setG(st, task=t, lookup_done=True); return k(st, t)
     def h_hook(kind):
         def h(ex, st, e, recv, args, kw, k, K):
             i = G(st).get('__i'); kk = KIND[kind]
@@ -82,10 +82,13 @@ def generate(src):
     def h_ack(ex, st, e, recv, args, kw, k, K):
         def eff(s, k2, K2):
             g = G(s)
+            # a REJECTED message (it could not be decoded, or names no known task) has no task function and no result: the statement's three points do
+            # not exist for it, so acknowledging it (e.g. an opt-in "ack unprocessable messages" switch) is constrained only by "at most once"
+            rejected = BoolVal(True) if g['skipped_by'] is not None else (g['task'] == Val.none if g.get('lookup_done') else BoolVal(False))
             ob(s, "callback/ack: at most once  [C02]", g['acks'] == 0)
             ob(s, "callback/ack: when_received => before the task function starts  [C02]", Implies(ACK == 0, Not(g['exec_started'])))
-            ob(s, "callback/ack: when_executed => only after the task function finished  [C02]", Implies(ACK == 1, g['exec_finished']))
-            ob(s, "callback/ack: when_saved => only after the save attempt completed or was skipped  [C02]", Implies(ACK == 2, Or(g['saves'] >= 1, And(g['noresult'], g['exec_finished'], g['post_execute_done']))))          # semantic: control is past a set_result call (it returned, or raised and was caught), or the outcome is no-result and the point where saving would start has been reached
+            ob(s, "callback/ack: when_executed => only after the task function finished  [C02]", Implies(And(ACK == 1, Not(rejected)), g['exec_finished']))
+            ob(s, "callback/ack: when_saved => only after the save attempt completed or was skipped  [C02]", Implies(And(ACK == 2, Not(rejected)), Or(g['saves'] >= 1, And(g['noresult'], g['exec_finished'], g['post_execute_done']))))          # semantic: control is past a set_result call (it returned, or raised and was caught), or the outcome is no-result and the point where saving would start has been reached
             ob(s, "callback/ack: only on messages delivered with an acknowledge callback  [C02]", ackable)
             setG(s, acks=g['acks'] + 1)
             ok = s.fork(); k2(ok, None)
@@ -173,9 +176,12 @@ def generate(src):
         g = G(s)
         if is_false(simplify(g['exec_started'])):
             exits['skip'] += 1
-            ob(s, "callback/skip: malformed or unknown-task message => nothing executed, acked or saved, no hook, no exception  [C01]",
-               And(g['acks'] == 0, g['saves'] == 0, Not(g['exec_started']), ForAll([j], Not(g['fired'][0][j]))))
-            ob(s, "callback/skip: only when decoding failed or the task is unknown  [C01]", Or(BoolVal(g['skipped_by'] is not None), g['task'] == Val.none))
+            rejected = BoolVal(True) if g['skipped_by'] is not None else g['task'] == Val.none
+            ob(s, "callback/skip: a message that is not executed => nothing saved, no exception; a malformed or unknown-task message reaches no hook  [C01]",
+               And(g['saves'] == 0, Not(g['exec_started']), Implies(rejected, ForAll([j], Not(g['fired'][0][j])))))
+            ob(s, "callback/skip: only when decoding failed, the task is unknown, or user code that runs before the task function (the acknowledge callable, a pre_execute hook) raised - the C01 precondition  [C01]",
+               Or(BoolVal(g['skipped_by'] is not None), g['task'] == Val.none, g['ack_failed'], g['hook_failed']))
+            ob(s, "callback/skip: acked at most once  [C02]", g['acks'] <= 1)
             reach(s, f"callback/reach@skip#{exits['skip']}")
             return
         exits['normal'] += 1
